@@ -47,6 +47,7 @@ type Contract struct {
 	Loops    map[int]*LoopSpec
 	CallAsserts map[string][]*Clause // "callee#n" -> asserts checked before that call
 	Trusted  bool // external / assumed
+	Unverified bool // in-package contract whose body is not (yet) verified
 	Pure     bool
 	Inline   bool
 	Opaque   bool   // external callee without effect on tracked state
@@ -205,6 +206,8 @@ func (S *Specs) LoadFile(path string, goFile bool) error {
 			for _, t := range strings.Fields(strings.ReplaceAll(rest, ",", " ")) {
 				cur.Props[t] = true
 			}
+		case "unverified":
+			cur.Unverified = true
 		case "pure":
 			cur.Pure = true
 		case "inline":
